@@ -52,7 +52,7 @@ func (r recTracer) Finish(ctx context.Context, c *app.RequestContext) {
 // one request per history element
 //   k = ok keep-alive      c = ok with Connection: close     p = handler panics (recovery middleware)
 //   m = malformed header   b = body larger than the limit    t = peer closes mid-body
-//   w = write error        h = hijack
+//   w = write error        h = hijack        x = ok keep-alive, the handler exiles its context
 // end of connection: E = peer closes (EOF), T = idle read times out
 func c19Request(i int, o byte) []byte {
 	path := fmt.Sprintf("/r%d", i)
@@ -73,6 +73,8 @@ func c19Request(i int, o byte) []byte {
 		return []byte("GET " + path + "?big=1 HTTP/1.1\r\nHost: a\r\n\r\n")
 	case 'h':
 		return []byte("GET " + path + "?hijack=1 HTTP/1.1\r\nHost: a\r\n\r\n")
+	case 'x':
+		return []byte("GET " + path + "?exile=1 HTTP/1.1\r\nHost: a\r\n\r\n")
 	}
 	return nil
 }
@@ -126,6 +128,9 @@ func c19Run(hist string, level stats.Level, frag int) (log []string, out []byte,
 		}
 		if ctx.Query("hijack") != "" {
 			ctx.Hijack(func(c network.Conn) {})
+		}
+		if ctx.Query("exile") != "" {
+			ctx.Exile() // the server goes on with another context; the tracer calls of this request are unaffected
 		}
 		ctx.SetStatusCode(200)
 	})
@@ -253,7 +258,7 @@ func init() {
 			return fs
 		},
 		Gen: func(t *T) {
-			outs := "kcpmbtwh"
+			outs := "kcpmbtwhx"
 			maxLen := t.Scale(3, 4)
 			var rec func(prefix string)
 			rec = func(prefix string) {
@@ -268,7 +273,7 @@ func init() {
 				}
 				if len(prefix) > 0 {
 					last := prefix[len(prefix)-1]
-					if last != 'k' && last != 'p' {
+					if last != 'k' && last != 'p' && last != 'x' {
 						return
 					}
 				}
@@ -282,7 +287,7 @@ func init() {
 				n := 1 + t.R.Intn(6)
 				b := make([]byte, n)
 				for j := range b {
-					b[j] = "kkkp"[t.R.Intn(4)]
+					b[j] = "kkkpx"[t.R.Intn(5)]
 				}
 				b[n-1] = outs[t.R.Intn(len(outs))]
 				t.Do(In{S(string(b) + string("ET"[t.R.Intn(2)])), Nn(t.R.Intn(2)), Nn(1 + t.R.Intn(40))}, true)
